@@ -23,7 +23,22 @@ pub enum Case03 {
         main_len: u16,
         fork_len: u16,
         fork_after: u16,
+        /// A short heavy branch inside the subtree of a child of the anchor, so that the
+        /// subtree's heaviest chain is not its longest one (the depth bound is about the longest).
+        #[serde(default)]
+        nested: Option<Nested>,
     },
+}
+
+#[derive(Clone, Copy, Debug, Serialize, Deserialize)]
+pub struct Nested {
+    /// Branches off after this many main-branch (or fork) blocks.
+    pub after: u16,
+    pub len: u8,
+    /// Difficulty of each of its blocks (the others have difficulty 1).
+    pub diff: u16,
+    /// Hangs off the competing fork instead of the main branch.
+    pub in_fork: bool,
 }
 
 pub fn judge_step(w: &World, info: &StepInfo, out: &mut Outcome, recorded: &mut Vec<H32>) {
@@ -101,7 +116,7 @@ fn check_stable_headers(w: &World, i: usize, out: &mut Outcome) {
     }
 }
 
-fn run_long(net: Net, threshold: u16, main_len: u16, fork_len: u16, fork_after: u16, out: &mut Outcome) {
+fn run_long(net: Net, threshold: u16, main_len: u16, fork_len: u16, fork_after: u16, nested: Option<Nested>, out: &mut Outcome) {
     let cfg = Cfg {
         net,
         threshold: 1,
@@ -156,9 +171,29 @@ fn run_long(net: Net, threshold: u16, main_len: u16, fork_len: u16, fork_after: 
     }
     let root = tip;
     for k in 0..main_len {
+        if !w.model.live.contains(&tip) {
+            // the anchor moved onto the heavy nested branch and the main branch was discarded
+            // (legitimately: it was the lighter one): nothing left to extend
+            out.class("long_main_branch_discarded");
+            break;
+        }
         match add(&mut w, tip, 1, out, &mut recorded, &mut step) {
             Some(id) => tip = id,
             None => return,
+        }
+        if let Some(n) = nested {
+            if k == n.after {
+                let parent = if n.in_fork { fork_tip } else { Some(tip) };
+                if let Some(mut p) = parent.filter(|p| w.model.live.contains(p)) {
+                    out.class("long_nested_heavy_short_branch");
+                    for _ in 0..n.len {
+                        match add(&mut w, p, n.diff as u128, out, &mut recorded, &mut step) {
+                            Some(id) => p = id,
+                            None => return,
+                        }
+                    }
+                }
+            }
         }
         if k >= fork_after {
             // grow the competing fork one block per main block
@@ -201,7 +236,12 @@ impl Property for C03 {
             prop_oneof![2 => Just(0u16), 3 => 1u16..=40, 1 => 41u16..=200],
             0u16..=300,
         )
-            .prop_map(|(net, threshold, main_len, fork_len, fork_after)| Case03::Long { net, threshold, main_len, fork_len, fork_after });
+            .prop_map(|(net, threshold, main_len, fork_len, fork_after)| (net, threshold, main_len, fork_len, fork_after));
+        let nested = prop_oneof![
+            1 => Just(None),
+            2 => (0u16..300, 1u8..=12, 20u16..=400, any::<bool>()).prop_map(|(after, len, diff, in_fork)| Some(Nested { after, len, diff, in_fork })),
+        ];
+        let long = (long, nested).prop_map(|((net, threshold, main_len, fork_len, fork_after), nested)| Case03::Long { net, threshold, main_len, fork_len, fork_after, nested });
         prop_oneof![
             400 => history_strategy(ops, 1, true, true).prop_map(Case03::Hist),
             long_w => long,
@@ -215,7 +255,7 @@ impl Property for C03 {
         }
     }
     fn rule(&self) -> String {
-        "Two generators. (1) Histories as in C02 with SetThreshold operations and upgrades on all networks: after every operation the observed anchor moves are judged against the model's reading of the rule on the tree as it was before the move (never early: rule 1 = child's heaviest chain >= threshold x difficulty(anchor) and lead over every sibling >= the same; testnet/regtest depth escape accepted under either reading of 'runner-up' and either rounding of the bound), never withheld (no child satisfies the rule under every reading after an ingestion opportunity), new anchor on the served chain, live set = anchor + descendants exactly, stable prefix append-only, and the headers served for stable heights are the recorded ones. (2) Long chains of 360..520 difficulty-1 blocks (optionally with a competing fork) under an anchor of difficulty 10^6 so that only the adaptive depth bound can advance the anchor. Non-trivial: a step that advanced the anchor while a sibling fork existed, or a child met exactly one half of rule 1, or the depth escape fired; distinct = distinct tree-shape hashes.".into()
+        "Two generators. (1) Histories as in C02 with SetThreshold operations and upgrades on all networks: after every operation the observed anchor moves are judged against the model's reading of the rule on the tree as it was before the move (never early: rule 1 = child's heaviest chain >= threshold x difficulty(anchor) and lead over every sibling >= the same; testnet/regtest depth escape accepted under either reading of 'runner-up' and either rounding of the bound), never withheld (no child satisfies the rule under every reading after an ingestion opportunity), new anchor on the served chain, live set = anchor + descendants exactly, stable prefix append-only, and the headers served for stable heights are the recorded ones. (2) Long chains of 360..520 difficulty-1 blocks (optionally with a competing fork, and in two thirds of them a short heavy branch nested inside the main branch or the fork, so that a subtree's heaviest chain is not its longest) under an anchor of difficulty 10^6 so that only the adaptive depth bound can advance the anchor. Non-trivial: a step that advanced the anchor while a sibling fork existed, or a child met exactly one half of rule 1, or the depth escape fired; distinct = distinct tree-shape hashes.".into()
     }
     fn assumptions(&self) -> Vec<String> {
         vec![
@@ -228,12 +268,8 @@ impl Property for C03 {
             other => serde_json::to_value(other).unwrap(),
         }
     }
-    fn required_classes(&self, tier: Tier) -> Vec<&'static str> {
-        let mut v = vec!["advance_by_rule1", "advance_with_sibling_fork", "half_rule1_only", "threshold_changed"];
-        if tier == Tier::Thorough {
-            v.push("long_depth_escape_fired");
-        }
-        v
+    fn required_classes(&self, _tier: Tier) -> Vec<&'static str> {
+        vec!["advance_by_rule1", "advance_with_sibling_fork", "half_rule1_only", "threshold_changed", "long_depth_escape_fired", "long_nested_heavy_short_branch"]
     }
     fn max_shrink_iters(&self) -> u32 {
         600
@@ -262,8 +298,8 @@ impl Property for C03 {
     fn run(&self, case: &Case03) -> Outcome {
         let mut out = Outcome::default();
         match case {
-            Case03::Long { net, threshold, main_len, fork_len, fork_after } => {
-                run_long(*net, *threshold, *main_len, *fork_len, *fork_after, &mut out);
+            Case03::Long { net, threshold, main_len, fork_len, fork_after, nested } => {
+                run_long(*net, *threshold, *main_len, *fork_len, *fork_after, *nested, &mut out);
             }
             Case03::Hist(h) => {
                 let mut w = World::new(&h.cfg);
